@@ -474,8 +474,11 @@ func readDnsMsgFromBufio(reader *bufio.Reader, timeout time.Duration, conn net.C
 		return nil, 0, fmt.Errorf("DNS message too small: %d bytes (min 12)", length)
 	}
 
-	// Now read and consume the full message (length prefix + data)
-	fullData, err := reader.Peek(int(2 + length))
+	// Now read and consume the full message (length prefix + data).
+	// Compute the frame length in int: in uint16 arithmetic 2+length wraps for
+	// length >= 0xfffe, Peek(0|1) then succeeds and fullData[2:] panics.
+	frameLen := 2 + int(length)
+	fullData, err := reader.Peek(frameLen)
 	if err != nil {
 		return nil, 0, err
 	}
@@ -495,12 +498,12 @@ func readDnsMsgFromBufio(reader *bufio.Reader, timeout time.Duration, conn net.C
 	}
 
 	// Consume the data by discarding it
-	_, err = reader.Discard(int(2 + length))
+	_, err = reader.Discard(frameLen)
 	if err != nil {
 		return nil, 0, err
 	}
 
-	return &msg, int(2 + length), nil
+	return &msg, frameLen, nil
 }
 
 // bufioConn wraps a net.Conn with a bufio.Reader, allowing buffered data
